@@ -454,6 +454,33 @@ def check_inbound(prog, r):
             r.ok("run_select: is_as_loop dominates rx_msg")
         else:
             r.fail(prog.name(rs), "as-loop-after-install", "a received route can reach rx_msg without passing the AS-loop check", fv.loc(rx[0][0]))
+        # ... and a looped announcement does not reach rx_msg as an announcement: on the `true` outcome of the test either rx_msg
+        # is skipped, or the message handed over is rebuilt as a route-less UPDATE (the FSM still has to see that an UPDATE
+        # arrived, C08) and the original message cannot flow into the call
+        from ..cfg import bool_edges
+        lbr = [(bb, br) for bb, br in branches(fv).items() if br.expr[0] == "call" and br.expr[1].endswith("export::is_as_loop")]
+        if not lbr:
+            lbr = [(bb, br) for bb, br in branches(fv, Renderer(fv, depth=10, through_names=True)).items() if any(c.endswith("export::is_as_loop") for c in expr_calls(br.expr)) and br.ty == "bool"]
+        if not lbr:
+            r.unanalysable("run_select: the branch on is_as_loop(..) was not found", fv.loc(lb[0]))
+        for bb, br in lbr:
+            for (x_, y_) in bool_edges(fv, br, True):
+                reached = [b for b, t in rx if b == y_ or b in fv.reach(y_)]
+                # rx_msg calls reachable before the next loop iteration (do not go round through the message loop again)
+                direct = [b for b in reached if b in fv.reach(y_, {bb})]
+                if not direct:
+                    r.ok("run_select: a looped announcement skips rx_msg")
+                    continue
+                rebuilt = False
+                for b2 in sorted(fv.reach(y_, set(direct) | {bb}) | {y_}):
+                    for s2 in fv.blocks[b2]["s"]:
+                        rv2 = s2.get("rv")
+                        if rv2 and rv2["r"] == "agg" and rv2.get("v") == "Unreach" and str(rv2.get("adtn", "")).endswith("bgp::Update"):
+                            rebuilt = True
+                if rebuilt:
+                    r.ok("run_select: a looped announcement is handed to the FSM as a route-less UPDATE (no route of it reaches rx_update)")
+                else:
+                    r.fail(prog.name(rs), "as-loop-after-install", "on the `AS loop detected` outcome the received announcement still reaches rx_msg unchanged: the looped route is installed", fv.loc(bb))
         # the check's arguments: local_asn and confederation_id
         e = Renderer(fv, depth=8)
         t = lo[0][1]
